@@ -19,6 +19,11 @@ SHAPES = {
     "single": [1234.5],
     "irregular": [10.0, 10.25, 11.0, 14.5],
 }
+# tall indexes: row counts at and around the block sizes a buffered writer might use (the model's histories do not depend on the
+# shape, so every history admitted for "inc" is also a history for these)
+TALL = [255, 256, 257, 512, 1000, 1001, 2000, 2048]
+for _n in TALL:
+    SHAPES["tall%d" % _n] = [100.0 + 0.5 * i for i in range(_n)]
 OPTS = {
     "default": {},
     "v12": {"version": 1.2},
